@@ -408,10 +408,12 @@ class SharesManager(BaseManager):
         if parents:
             parent = parents[-1]
             children = parent.get_items_for_directory(directory_object)
-            directory_object.items |= children
+            directory_object.items |= self._reassign_items(children, directory_object)
             parent.items -= children
 
         self._shared_directories.append(directory_object)
+        if parents:
+            self.rebuild_term_map()
 
         self._event_bus.emit_sync(SharedDirectoryChangeEvent(directory_object))
 
@@ -492,13 +494,27 @@ class SharesManager(BaseManager):
         # directory
         if parents:
             parent = parents[-1]
-            parent.items |= shared_directory.items
+            parent.items |= self._reassign_items(shared_directory.items, parent)
 
         self.rebuild_term_map()
 
         self._event_bus.emit_sync(SharedDirectoryChangeEvent(shared_directory))
 
         return shared_directory
+
+    def _reassign_items(self, items: set[SharedItem], target: SharedDirectory) -> set[SharedItem]:
+        """Creates copies of the given items that belong to the ``target``
+        directory
+        """
+        reassigned = set()
+        for item in items:
+            subdir = os.path.relpath(
+                os.path.dirname(item.get_absolute_path()), target.absolute_path)
+            new_item = SharedItem(
+                target, '' if subdir == '.' else subdir, item.filename, item.modified)
+            new_item.attributes = item.attributes
+            reassigned.add(new_item)
+        return reassigned
 
     def get_shared_directory(self, directory: str) -> SharedDirectory:
         """Calculates the absolute path of given ``directory`` and looks for the
